@@ -10,7 +10,6 @@
 -/
 import ILV.Drv.Common
 import ILV.Model.Incr
-import ILV.Model.IncrFixed
 namespace ILV.Drv.C18
 open ILV ILV.C18
 
@@ -178,7 +177,7 @@ def isAck : Out → Bool
 def walk (viaHandler : Bool) : List Step → List String → St → Ghost → Nat → List String → Option String → (List String × Option String × Bool)
   | [], _, _, g, _, outs, verdict => (outs.reverse, verdict, g.sawMat)
   | st :: l, impls, s, g, k, outs, verdict =>
-    let r := step codeAutoMat s st
+    let r := step s st
     let s' := r.1
     -- the convergence side condition of `safeRec`, observed on every visited state: an evaluation that ran
     -- out of fuel would show up as a model/code disagreement
@@ -233,21 +232,6 @@ def hist : Handler := fun args impl =>
   | ["h"] => { model := "", spec := "na", nt := false }
   | _ => badReq
 
-/-- manual tool (never generated by the harness): run the model of the PROPOSED REPAIR
-    (`ILV.C18.Fixed.step`) over a history and report the first query whose snapshot answer differs
-    from the fresh answer. `sed 's/^c18.hist/c18.fixcheck/' work/C18/cases.txt | ilvd`. -/
-def fixcheck : Handler := fun args _ =>
-  match args with
-  | _ :: "|" :: toks =>
-    match optMapM parseStep (splitSteps toks []) with
-    | none => badReq
-    | some steps =>
-      { model := "", nt := false,
-        spec := match Fixed.firstVisible init steps 0 with
-          | none => specOk
-          | some k => specFail "repair_design" s!"query-at-step-{k}" }
-  | _ => badReq
-
-def handlers : List (String × Handler) := [("c18.hist", hist), ("c18.fixcheck", fixcheck)]
+def handlers : List (String × Handler) := [("c18.hist", hist)]
 
 end ILV.Drv.C18
